@@ -53,6 +53,10 @@ type Group struct {
 	isBuiltinHelp bool
 
 	data interface{}
+
+	// The struct types which are currently being scanned for options (to
+	// not descend endlessly into a type which refers to itself)
+	scanning []reflect.Type
 }
 
 type scanHandler func(reflect.Value, *reflect.StructField) (bool, error)
@@ -210,6 +214,12 @@ func (g *Group) scanStruct(realval reflect.Value, sfield *reflect.StructField, h
 		}
 	}
 
+	g.scanning = append(g.scanning, stype)
+
+	defer func() {
+		g.scanning = g.scanning[:len(g.scanning)-1]
+	}()
+
 	for i := 0; i < stype.NumField(); i++ {
 		field := stype.Field(i)
 
@@ -237,7 +247,7 @@ func (g *Group) scanStruct(realval reflect.Value, sfield *reflect.StructField, h
 			if err := g.scanStruct(fld, &field, handler); err != nil {
 				return err
 			}
-		} else if kind == reflect.Ptr && field.Type.Elem().Kind() == reflect.Struct {
+		} else if kind == reflect.Ptr && field.Type.Elem().Kind() == reflect.Struct && !g.isScanning(field.Type.Elem()) {
 			flagCountBefore := len(g.options) + len(g.groups)
 
 			if fld.IsNil() {
@@ -317,6 +327,16 @@ func (g *Group) scanStruct(realval reflect.Value, sfield *reflect.StructField, h
 	}
 
 	return nil
+}
+
+func (g *Group) isScanning(tp reflect.Type) bool {
+	for _, t := range g.scanning {
+		if t == tp {
+			return true
+		}
+	}
+
+	return false
 }
 
 func (g *Group) checkForDuplicateFlags() *Error {
